@@ -291,6 +291,10 @@ def gen_site(rng, boom_ok=False):
             lambda: f"{e}.a + {v()}.__abs__()",
             lambda: f"{e}.jets.Where(lambda {j}: {j}.pt > {v()}.__abs__()).Count()",
             lambda: f"[{j}.pt * {v()}.__abs__() + {v()}.real for {j} in {e}.jets]",
+            # (an attribute chain that does not exist: python would fail, the query must at
+            # least not keep the variable's name)
+            lambda: f"{e}.a + {v()}.scale.value",
+            lambda: f"{e}.jets.Select(lambda {j}: {j}.pt * {v()}.scale.factor())",
         ]
         # a bound name spelled like a captured class / module, used with the very attribute the
         # captured object has (`lambda K0: K0.A` - K0 the parameter, not the class)
